@@ -220,6 +220,15 @@ def check_tree(tree, desc):
         else:
             siblings = [c for c in by_path[parent]['children']]
             aliases.append(('index-added', '.'.join(elems[:-1] + [f'{last}[{[i for i, c in enumerate(siblings) if c is e][0]}]'])))
+        # other spellings of a real path: an empty element, a padded / signed / zero-filled / negative index, a stray bracket
+        aliases += [('empty-element', p.replace('.', '..', 1)), ('leading-dot', '.' + p), ('trailing-dot', p + '.')]
+        if last.endswith(']'):
+            k = int(re.search(r'\[(\d+)\]$', last).group(1))
+            stem = '.'.join(elems[:-1] + [re.sub(r'\[\d+\]$', '', last)])
+            n_sib = len(by_path[parent]['children'])
+            aliases += [('index-zero-filled', f'{stem}[0{k}]'), ('index-padded', f'{stem}[ {k}]'), ('index-signed', f'{stem}[+{k}]'), ('index-negative', f'{stem}[{k - n_sib}]'),
+                        ('bracket-doubled', f'{stem}[{k}]]'), ('index-not-a-number', f'{stem}[x]'), ('index-twice', f'{stem}[{k}][{k}]'),
+                        ('index-full-width', f'{stem}[' + ''.join(chr(0xFF10 + int(c)) for c in str(k)) + ']')]
         for kind, alias in aliases:
             try:
                 found = finder.exists(root, alias)
